@@ -6,7 +6,10 @@ Pipeline (per chunk of cases):
      entry of mdp.state_list, action j = j-th entry of mdp.action_list) - that is the record TLC gets;
   2. TLC "mc" run of spec/C16_Multichain.tla: exact oracle (optimal discounted values / optimal gain
      by class analysis, spec/lib/Chain.tla) + the reference machine of the code's loop from the default
-     and from several other initial decision rules; design invariants checked on every state;
+     and from several other initial decision rules (all of them on a quarter of the thorough cases and on
+     the exhaustive 2-state family of the thorough tier); where the code's argmax rests on exactly tied
+     floating-point maximisers the machine branches, and a real run must be explained by one of the
+     behaviours; design invariants (incl. the property itself at the model level) checked on every state;
   3. the TLA+ oracle is cross-checked against independent Python implementations (Fractions: policy
      enumeration + exact Gaussian elimination of the evaluation equations; multichain linear program
      via scipy) - a disagreement is a machinery failure;
@@ -419,8 +422,8 @@ def judge_cases(ctx, cases, *, tamper_build=None, tamper_real=None, steps=True):
     preps = [prepare(c, tamper_build if (tamper_build and k == 0) else None) for k, c in enumerate(cases)]
     batch = [mp for _, mp in preps]
     res = run_tlc(ctx.workdir / "mc", MODULE, CFG_MC, files={"batch.json": batch},
-                  env={"BATCH_FILE": "batch.json", "MODE": "mc"})     # TLC's -coverage runs out of memory on this module
-
+                  env={"BATCH_FILE": "batch.json", "MODE": "mc"})     # (TLC's -coverage runs out of memory on this module;
+    #                                                                     per-action counts are taken from the emitted behaviours)
     ctx.add_tlc(res, "mc: oracle (optimal values / optimal gain) + multichain policy-iteration machine from every initial rule")
     bad = [v for v in res.violated if v in DESIGN_INVS]
     if bad:
@@ -431,7 +434,7 @@ def judge_cases(ctx, cases, *, tamper_build=None, tamper_real=None, steps=True):
         if r["kind"] == "oracle":
             orcs[r["iid"]] = r
         elif r["kind"] == "run":          # several behaviours per initial rule when exact ties branch
-            runs.setdefault((r["iid"], tuple(r["pol0"])), []).append(r)
+            runs.setdefault(r["iid"], {}).setdefault(tuple(r["pol0"]), []).append(r)
             # per-action coverage of the machine, from the behaviours TLC emitted
             cov = ctx.extra.setdefault("machine_action_coverage", {"Start": 0, "Evaluate": 0, "GainImprove:changed": 0,
                                                                     "GainImprove:kept": 0, "BiasImprove:changed": 0,
@@ -470,7 +473,7 @@ def judge_cases(ctx, cases, *, tamper_build=None, tamper_real=None, steps=True):
         default = [min(j + 1 for j in range(mp["K"]) if mp["avail"][s][j]) for s in range(mp["N"])]
         outs = {"plan": run_plan(b, mp["CAP"])}
         ctx.evaluations += 1
-        myruns = {p0: r for (ii, p0), r in runs.items() if ii == i}
+        myruns = runs.get(i, {})
         if tuple(default) not in myruns:
             raise TLCFailure(f"no machine record for the default rule of case {i}")
         for p0 in myruns:
